@@ -68,6 +68,23 @@ Definition handle (ch : chan) (m : msg) : chan :=
       mkChan (c_out ch) (c_err ch) (c_comb ch) (c_exit ch) true true true
   end.
 
+(* message number of each modelled message kind and the handler the table must route it to
+   (codes as in Gen/C21_gen.v: 1 _request_success, 3 _feed, 4 _feed_extended, 5 _window_adjust,
+   6 _handle_request, 7 _handle_eof, 8 _handle_close); [handle] above mirrors exactly these handlers.
+   Tied to common.py / Transport._channel_handler_table by Proofs (gen_dispatch). *)
+Definition msg_ptype (m : msg) : Z :=
+  match m with
+  | Data _ => 94 | ExtData _ _ => 95 | ExitStatus _ => 98 | ReqOther => 98
+  | WinAdj _ => 93 | Success => 99 | Eof => 96 | Close => 97
+  end.
+Definition handler_code (m : msg) : Z :=
+  match m with
+  | Data _ => 3 | ExtData _ _ => 4 | ExitStatus _ => 6 | ReqOther => 6
+  | WinAdj _ => 5 | Success => 1 | Eof => 7 | Close => 8
+  end.
+Definition stderr_code : Z := 1.          (* the extended-data code [handle] / [ext_of] test for *)
+Definition packet_overhead : Z := 64.     (* the constant in [send_size] *)
+
 (* ---- the run() loop's channel dispatch ------------------------------------------- *)
 Record ctl := mkCtl {
   k_active : bool;       (* the loop has not hit "break" *)
@@ -380,3 +397,21 @@ Definition run_sendall_win (x : Z * Z * list Z) : list Z :=
   let '(w, p, s) := x in
   let '(l, rest, wf) := sendall_win (S (length s)) w p s in
   flat_map (fun q => Z.of_nat (length q) :: q) l ++ [(-1)] ++ rest ++ [(-2); wf].
+
+Definition run_ptype (m : msg) : list Z := [msg_ptype m; handler_code m].
+
+(* one entry point for the small correspondence families (evaluated in one coqc run) *)
+Inductive anycase :=
+  | APtype (m : msg)
+  | AMicro (x : list Z * list Z * list bool)
+  | AExit (x : Z * Z * list bool)
+  | ASendall (x : list Z * list Z)
+  | ASendWin (x : Z * Z * list Z).
+Definition run_any (a : anycase) : list Z :=
+  match a with
+  | APtype m => run_ptype m
+  | AMicro x => run_micro x
+  | AExit x => run_exit x
+  | ASendall x => run_sendall x
+  | ASendWin x => run_sendall_win x
+  end.
